@@ -191,6 +191,12 @@ row("class_basic", {"decl": "class {n}_C", "declarations": [
         {"decl": "int add(int a, int b = 2) const"},
         {"decl": "static int count()"},
     ]}, langs=CXX, wraps=ALLW, doc="docs/classes.rst; classes.yaml Class1")
+row("class_named", {"decl": "class {n}_N", "declarations": [
+        {"decl": "{n}_N() +name(new)"},
+        {"decl": "{n}_N(int flag) +name(new_flag)"},
+        {"decl": "~{n}_N() +name(destroy)"},
+        {"decl": "int value() const"},
+    ]}, langs=CXX, wraps=ALLW, doc="docs/tutorial.rst Class1() +name(new), ~Class1() +name(delete)")
 # many overloads with long (but legal, < 40 character) names: the type-bound generic line lists every specific
 row("class_long_overloads", {"decl": "class {n}_SB", "declarations": [
         {"decl": "{n}_SB()"},
